@@ -2892,12 +2892,14 @@ def mpf2multiword(dtype, x, p=None, max_length=None):
         bl1 = man1.bit_length()
         d = mask.bit_length() - bl1
         assert d >= 0
-        if d > 0 and offset > 0:
+        while d > 0 and offset > 0:
             # skip heading bytes that are zero for optimal compression
             # of bit data. In some cases, this reduces result length.
+            # An all-zero chunk may be followed by further zero bits.
             offset -= min(d, offset)
             man1 = (man & (mask << offset)) >> offset
             bl1 = man1.bit_length()
+            d = mask.bit_length() - bl1
         exp1 = exp + offset
         x1 = mpf2float(dtype, mpf((sign, man1, exp1, bl1)))
         if x1 == dtype(0):
